@@ -402,6 +402,25 @@ func c16Others() []CaseInst {
 			nd(S, "x"), nd(I, "r0"), nd(PL, "r1"), id)
 		return []HarnessSrc{h("VX_C16_toerror_"+id, "toerror", body)}
 	}})
+	// ToError over functions whose parameter names are the identifiers the generated closure uses itself
+	out = append(out, CaseInst{ID: "K14", Desc: "toerror func(err error) (int, bool)", Gen: func(g *Gen, id string) []HarnessSrc {
+		g.addFunc("c16err", c16Err)
+		body := fmt.Sprintf("\tr0 := %s\n\tsucc := vx.Nondet[bool](\"ok\")\n\tcalls := 0\n\tvar got error\n\tmyErr := error(&vxErr{1})\n\targErr := error(&vxErr{2})\n"+
+			"\tf := func(err error) (int, bool) {\n\t\tcalls++\n\t\tgot = err\n\t\treturn r0, succ\n\t}\n"+
+			"\to0, err := deriveToError%s(myErr, f)(argErr)\n\tvx.Assert(calls == 1 && got == argErr && o0 == r0, \"f called once with the argument, other results passed through\")\n"+
+			"\tvx.Assert((succ && err == nil) || (!succ && err == myErr), \"nil when f reports true, exactly the SUPPLIED error otherwise (not f's argument)\")\n",
+			nd(I, "r0"), id)
+		return []HarnessSrc{h("VX_C16_toerror_"+id, "toerror", body)}
+	}})
+	out = append(out, CaseInst{ID: "K15", Desc: "toerror func(success string, out0 int) (int, bool)", Gen: func(g *Gen, id string) []HarnessSrc {
+		g.addFunc("c16err", c16Err)
+		body := fmt.Sprintf("\tx := %s\n\ty := %s\n\tr0 := %s\n\tsucc := vx.Nondet[bool](\"ok\")\n\tcalls := 0\n\tvar gotS string\n\tvar gotI int\n\tmyErr := error(&vxErr{1})\n"+
+			"\tf := func(success string, out0 int) (int, bool) {\n\t\tcalls++\n\t\tgotS, gotI = success, out0\n\t\treturn r0, succ\n\t}\n"+
+			"\to0, err := deriveToError%s(myErr, f)(x, y)\n\tvx.Assert(calls == 1 && gotS == x && gotI == y && o0 == r0, \"f called once with the arguments, other results passed through\")\n"+
+			"\tvx.Assert((succ && err == nil) || (!succ && err == myErr), \"nil when f reports true, exactly the supplied error otherwise\")\n",
+			nd(S, "x"), nd(I, "y"), nd(I, "r0"), id)
+		return []HarnessSrc{h("VX_C16_toerror_"+id, "toerror", body)}
+	}})
 	// Fmap error form: deriveFmap(func(A) (B, error), func() (A, error)) (func() (B, error), error)
 	out = append(out, CaseInst{ID: "K12", Desc: "fmap func(string) (int, error) over func() (string, error)", Gen: func(g *Gen, id string) []HarnessSrc {
 		g.addFunc("c16err", c16Err)
